@@ -6,6 +6,7 @@
 set -u
 OUT=$1; NAME=$2; DEMODIR=$3; TESTARGS=$4; shift 4
 export GOFLAGS=-mod=mod GOPROXY=off GOSUMDB=off GOTOOLCHAIN=local
+export VERIF_SCRATCH_EVIDENCE=/tmp/seed-evidence   # runs against a changed library never touch /verif/evidence
 WT=/tmp/sv-$NAME
 git -C /repo worktree remove --force $WT 2>/dev/null
 git -C /repo worktree add --detach $WT -q || exit 2
